@@ -49,7 +49,7 @@ EXPLANATION = (
     'gated by has_buildfile(). NOT decided: outcomes of run-time lookups (system state, subproject configuration), the cross product of the policy table as behaviour, '
     'that sha256/urlopen behave as documented, KeyboardInterrupt during patching, how the text of a [provide] value is cut into names (per-item strip()/lower() in PackageDefinition.parse_provide_section is string processing on run-time values), '
     'that an override is found by a dependency() call that names another method/modules/components (these keywords are part of the identifier by upstream design; confirmed by probe, not armed), a guard of _get_cached_dep spelled with another attribute than the reference knows (ends Undecided), override_dependency() in interpreter/mesonmain.py (which static=/default_library variants of the identifier an override is registered under - seed C10-r7-2, if/elif over membership tests - is a value-level table of another module that no rule of this pack anchors), '
-    'a failure of the other acquisition steps (_get_git/_get_hg/_get_svn run external programs, copy_tree copies from the extracted-package cache, all outside the cleanup try: what a failing clone/checkout leaves under self.dirname is behaviour of the external program, not readable from the source; the property lists fetch/verify/unpack/patch/diff of archives - printed as an information note by R4), '
+    'a failure of the other acquisition steps (_get_git/_get_hg/_get_svn run external programs, copy_tree copies from the extracted-package cache, all outside the cleanup try: what a failing clone/checkout leaves under self.dirname is behaviour of the external program, not readable from the source; the property lists fetch/verify/unpack/patch/diff of archives - printed as an information note by R4 with a confirmed wrap-git witness: a clone whose revision cannot be checked out is accepted by the next run; not armed), '
     'which exception class a failing unpack is reported as (tarfile.ReadError / zipfile.BadZipFile are no OSError: library knowledge), '
     '`meson subprojects update/packagefiles` (msubprojects.py re-applies patches outside the cleanup), a known call made with other operands than the reference reads (e.g. _get_cached_dep(self.names[0], ..) inside the loop over the names, get_varname() with swapped operands, find_dep_provider(self.names[0])): the atom is not recognised and the table rule ends Undecided, it is not reported as a violation.')
 ASSUMPTIONS = ['Dependency objects are truthy; NotFoundDependency.found() is False',
